@@ -6,7 +6,19 @@ package gcsutil
 // This file contains comments only and is compiled only with the build tag "verif".
 
 // Run executes f zero or one time while holding the key lock; callers in gcsemu rely on this contract.
+// At return the thread's last key-lock operation is either a failed acquisition (lmLastOp == 1: f did not run, the
+// context had ended, the result is its non-nil error: a nil result means f ran) or the completed deferred Unlock
+// (lmLastOp == 3). Acquiring the key lock advances the epoch before f runs, and inside f nothing has been validated
+// yet in this critical section (gcsValidEpoch != epoch): check-then-act must happen inside f.
+// (ghosts lmTick/lmLastOp/lmLastId, lmInv, lmCtxDone, lmFull: zz_verif_contracts_lockmap.go)
 //@ func (l *TransientLockMap) Run
 //@   property C19 C07
+//@   held l.mu none
+//@   requires !isnil(ctx)
 //@   requires f != nil
-//@   modifies *
+//@   modifies *, ghost(epoch), ghost(lmTick), ghost(lmLastOp), ghost(lmLastId), ghost(gcsValidEpoch)
+//@   callback f assume gcsValidEpoch != epoch
+//@   ensures lmLastOp == 1 || lmLastOp == 3
+//@   ensures lmLastOp == 1 ==> lmCtxDone(ctx) && result != nil
+//@   ensures lmLastOp == 1 && old(lmInv(l)) ==> lmInv(l) && forall k string :: ((k in l.locks) == old(k in l.locks) && (k in l.locks ==> l.locks[k] == old(l.locks[k]) && l.locks[k].refcount == old(l.locks[k].refcount)))
+//@   ensures lmLastOp == 1 ==> forall x *gcsutil.countedLock :: allocated(x) ==> lmFull(x) == old(lmFull(x))
